@@ -24,6 +24,43 @@ def is_self_attr(n):
     return isinstance(n, ast.Attribute) and isinstance(n.value, ast.Name) and n.value.id == "self"
 
 
+def method_of(prog, cls, name):
+    """The method a PDU object of class cls runs for `name`: its own or the nearest inherited one of the program."""
+    return prog.lookup_method(cls, name)
+
+
+def pdu_classes(prog):
+    """name -> class of mqtt.pdu that has encode() and decode(), its own or inherited.  A class that only serves as a base
+    (it has subclasses in the module and nothing in the program instantiates it) is a template, not a packet."""
+    m = prog.modules.get("mqtt.pdu")
+    if m is None:
+        raise AnalysisError("anchor vanished: mqtt.pdu")
+    called = getattr(prog, "_called_names", None)
+    if called is None:
+        called = set()
+        for mod in prog.modules.values():
+            for n in ast.walk(mod.tree):
+                if isinstance(n, ast.Call):
+                    if isinstance(n.func, ast.Name):
+                        called.add(n.func.id)
+                    elif isinstance(n.func, ast.Attribute):
+                        called.add(n.func.attr)
+                elif isinstance(n, ast.Dict):
+                    for v in n.values:
+                        if isinstance(v, ast.Name):
+                            called.add(v.id)       # classes kept in a table and instantiated from it
+        prog._called_names = called
+    out = {}
+    for c in m.classes.values():
+        if method_of(prog, c, "encode") is None or method_of(prog, c, "decode") is None:
+            continue
+        is_base = any(o is not c and prog.is_subclass(o, c.qual) for o in m.classes.values())
+        if is_base and c.name not in called:
+            continue
+        out[c.name] = c
+    return out
+
+
 class EncoderLayout:
     """Layout of the buffer returned by one encode()."""
 
@@ -31,7 +68,7 @@ class EncoderLayout:
         self.prog = prog
         self.cls = cls
         self.mod = cls.module
-        self.fn = cls.methods["encode"]
+        self.fn = method_of(prog, cls, "encode")
         self.assume = assume or {}
         self.branch_guards = []     # guard texts of ifs that change buffers or flag bytes
         self.bufs = {}
@@ -550,9 +587,8 @@ def encoder_layouts(prog):
     if m is None:
         raise AnalysisError("anchor vanished: mqtt.pdu")
     out = {}
-    for c in m.classes.values():
-        if "encode" in c.methods and "decode" in c.methods:
-            out[c.name] = EncoderLayout(prog, c)
+    for c in pdu_classes(prog).values():
+        out[c.name] = EncoderLayout(prog, c)
     return out
 
 
@@ -592,7 +628,7 @@ class DecoderLayout:
         self.prog = prog
         self.cls = cls
         self.mod = cls.module
-        self.fn = cls.methods["decode"]
+        self.fn = method_of(prog, cls, "decode")
         self.assume = assume or {}
         self.branch_guards = []
         self.nsym = 0
@@ -648,6 +684,28 @@ class DecoderLayout:
         """(cursor name, offset Lin, upper Lin or None) for  rest / rest[i:] / rest[i:j]."""
         if isinstance(n, ast.Name) and n.id in self.cursors:
             return n.id, self.cursors[n.id], None
+        if isinstance(n, ast.Subscript) and isinstance(n.value, ast.Name) and n.value.id == self.pkt and isinstance(n.slice, ast.Slice) \
+                and self.hdr.get("var") and n.slice.step is None:
+            # pkt[v+k:] with v the index the fixed-header scan stopped at: the variable part starts at v+1, so this is offset k-1
+            v = self.hdr["var"]
+
+            def rel(e):
+                if isinstance(e, ast.Name) and e.id == v:
+                    return Lin(-1)
+                if isinstance(e, ast.BinOp) and isinstance(e.op, ast.Add):
+                    for a, b in ((e.left, e.right), (e.right, e.left)):
+                        if isinstance(a, ast.Name) and a.id == v:
+                            try:
+                                return Lin(-1).add(self.lin(b))
+                            except AnalysisError:
+                                return None
+                return None
+            lo = rel(n.slice.lower) if n.slice.lower is not None else None
+            hi = rel(n.slice.upper) if n.slice.upper is not None else None
+            if lo is not None and (n.slice.upper is None or hi is not None):
+                if self.hdr["plus"] is None:
+                    self.hdr["plus"] = 1       # offsets are taken relative to v+1 by construction
+                return "@hdr", lo, hi
         if isinstance(n, ast.Subscript) and isinstance(n.value, ast.Name) and n.value.id in self.cursors and isinstance(n.slice, ast.Slice):
             base = self.cursors[n.value.id]
             lo = self.lin(n.slice.lower) if n.slice.lower is not None else Lin(0)
@@ -762,6 +820,10 @@ class DecoderLayout:
                         self.cursors[nxt.targets[0].id] = Lin(0)
                         i += 3
                         continue
+                    # the scan alone: what follows the fixed header is addressed as pkt[v+k:] where it is needed
+                    self.hdr = {"found": True, "mask": m if okm else None, "start": start, "plus": None, "node": w, "var": v}
+                    i += 2
+                    continue
             self._stmt(s)
             i += 1
 
@@ -1038,7 +1100,6 @@ class DecoderLayout:
 def decoder_layouts(prog):
     m = prog.modules.get("mqtt.pdu")
     out = {}
-    for c in m.classes.values():
-        if "encode" in c.methods and "decode" in c.methods:
-            out[c.name] = DecoderLayout(prog, c)
+    for c in pdu_classes(prog).values():
+        out[c.name] = DecoderLayout(prog, c)
     return out
